@@ -2,14 +2,15 @@
 # usage: confirm_seed.sh C07 a   -- confirms a seeded change in the scratch worktree /tmp/wt/<id> (pinned commit)
 # and, when confirmed, copies it to /verif/seeded/<id>-<v>/
 id=$1; v=$2
-src=/tmp/seed-out/$id/$v
-wt=/tmp/wt/$id
+SRC=${SRC:-/tmp/seed-out}; WTROOT=${WTROOT:-/tmp/wt}; BASE=${BASE:-9e33565}
+src=$SRC/$id/$v
+wt=$WTROOT/$id
 out=/verif/seeded/$id-$v
 export GOFLAGS=-mod=mod GOPROXY=off GOSUMDB=off GOTOOLCHAIN=local
 log=$src/confirm.log
 : > $log
-[ -d $wt ] || git -C /repo worktree add --detach $wt 9e33565 >>$log 2>&1
-git -C $wt checkout -q 9e33565 -- . 2>>$log; git -C $wt checkout -- . ; git -C $wt clean -fdq
+[ -d $wt ] || git -C /repo worktree add --detach $wt $BASE >>$log 2>&1
+git -C $wt checkout -q $BASE -- . 2>>$log; git -C $wt checkout -- . ; git -C $wt clean -fdq
 place_demo() {
   if [ -n "$(find $src/demo -mindepth 1 -type d 2>/dev/null)" ]; then
     (cd $src/demo && find . -type f | while read f; do mkdir -p $wt/$(dirname $f); cp $f $wt/$f; done)
@@ -21,7 +22,7 @@ place_demo() {
   fi
 }
 democmd=$(python3 -c "import json;print(json.load(open('$src/meta.json')).get('demo_cmd',''))")
-democmd=${democmd//\/tmp\/wt\/$id/$wt}
+democmd=${democmd//\/tmp\/wt2\/$id/$wt}; democmd=${democmd//\/tmp\/wt\/$id/$wt}
 run_demo() { (cd $wt && timeout 900 bash -c "$democmd") >>$log 2>&1; }
 place_demo
 echo "== demo on unchanged tree" >>$log; run_demo; r_clean=$?
@@ -40,7 +41,8 @@ if [ $r_clean -eq 0 ] && [ $r_build -eq 0 ] && [ $r_patch -ne 0 ] && [ $r_tests 
   python3 - <<PY
 import json
 m=json.load(open('$src/meta.json'))
-m['confirmed']={'by':'tools/confirm_seed.sh in scratch worktree $wt at the pinned commit','demo_on_unchanged_tree':'pass','build_with_patch':'ok','demo_with_patch':'fail (as required)','existing_tests_with_patch':'pass (all packages except services/ja3/crypto/tls, which the change does not touch)'}
+m['base_commit']='$BASE'
+m['confirmed']={'by':'tools/confirm_seed.sh in scratch worktree $wt at commit $BASE','demo_on_unchanged_tree':'pass','build_with_patch':'ok','demo_with_patch':'fail (as required)','existing_tests_with_patch':'pass (all packages except services/ja3/crypto/tls, which the change does not touch)'}
 json.dump(m,open('$out/meta.json','w'),indent=1)
 PY
   echo "RESULT $id-$v CONFIRMED $status"
